@@ -885,6 +885,8 @@ def snapshot(obj, _seen=None):
         return ("set", sorted(repr(snapshot(v, _seen)) for v in obj))
     if isinstance(obj, (types.FunctionType, types.BuiltinFunctionType, types.MethodType)):
         return ("callable", getattr(obj, "__qualname__", "?"))
+    if isinstance(obj, type):
+        return ("type", obj.__qualname__)
     d = getattr(obj, "__dict__", None)
     if d is not None:
         return ("obj", type(obj).__name__, [(k, snapshot(v, _seen)) for k, v in sorted(d.items()) if not k.startswith("_sim_")])
